@@ -275,6 +275,8 @@ def replay(w):
     if w.get('kind') != 'next_imf':
         return False, 'unknown witness kind'
     x = np.array(w['x'], float)
+    if w.get('dtype'):
+        x = x.astype(w['dtype'])        # the same (integer-valued) samples stored as integers / single precision; the reference works on a float64 copy
     o = w['opts']
     eo, xo = {'interp_method': o.get('interp', 'splrep')}, {'pad_width': o.get('pad', 2)}
     with warnings.catch_warnings():
@@ -340,5 +342,21 @@ def refute(tier, seed, emit):
         if ok:
             cl = 'flag' if 'continue flag' in msg else 'iterate-sequence'
             emit.violation('get_next_imf:%s:extrema-vanish-mid-sift' % cl, w, msg)
+        if emit.full:
+            return
+    # integer-typed / single-precision input (raw counts): the same iterate sequence as for the float64 copy of the samples
+    nint = 60 if tier == 'quick' else 600
+    emit.scope('%d seeded integer-valued signals (random walks in counts, length 8..120) stored as int64 / int32 / float32 x stop rule {sd, rilling, fixed}: result compared with the iterate sequence recomputed on the float64 copy' % nint)
+    for q in range(nint):
+        xi = np.cumsum(r.randint(-4, 5, size=int(r.randint(8, 121)))).astype(float)
+        rule = ['sd', 'rilling', 'fixed'][q % 3]
+        o = {'rule': rule, 'max_iters': 5 if rule == 'fixed' else 1000, 'step': 1.0, 'sd': 0.1, 'interp': 'splrep', 'pad': 2}
+        dt = ['int64', 'int32', 'float32'][(q // 3) % 3]
+        emit.case(('int', q), nontrivial=dt != 'float32', contract='get_next_imf')
+        w = {'kind': 'next_imf', 'x': xi.tolist(), 'opts': o, 'dtype': dt}
+        ok, msg = replay(w)
+        if ok:
+            cl = 'flag' if 'continue flag' in msg else 'iterate-sequence' if 'differs from' in msg else 'other'
+            emit.violation('get_next_imf:%s:%s-input' % (cl, dt), w, msg)
         if emit.full:
             return
